@@ -171,7 +171,7 @@ def r12_4(ctx):
     ctx.run_rule("R12.4", "cache budget arithmetic and loop bounds", body, floor=3)
 
 
-def r12_5(ctx):
+def r12_5(ctx, rid="R12.5"):
     F = ctx.facts
 
     def body(r):
@@ -187,10 +187,12 @@ def r12_5(ctx):
                 if p.end[0] == "ret" and p.end[1][0] == "agg":
                     vals.add(dict(p.end[1][3]).get("compiled"))
             r.ob("fresh-regex-uncompiled:%s" % name, vals == {("agg", "std::option::Option", "None", ())}, f.site, "LazyRegex::%s starts with compiled = %s" % (name, [show(v, f) for v in vals]))
-    ctx.run_rule("R12.5", "compiled automata belong to the pattern they were compiled from", body, floor=3)
+    ctx.run_rule(rid, "compiled automata belong to the pattern they were compiled from", body, floor=3)
 
 
 def run(ctx):
+    from .c08 import r08_1
+    r08_1(ctx, rid="R12.6")  # a node decides with its (lazy or compiled) regex: no other shortcut depends on the cache state
     r12_5(ctx)
     r12_1(ctx)
     r12_2(ctx)
